@@ -75,6 +75,7 @@ fn rand_cfg(rng: &mut Rng) -> Cfg {
         page_cache: rng.chance(0.3),
         fs_seed: rng.next_u64(),
         capacity: None,
+        dio_align: None,
     }
 }
 
